@@ -402,7 +402,7 @@ impl<
     ) -> Option<TimeZoneTransition> {
         assert!(!self.timestamps().is_empty(), "transitions is non-empty");
         let mut timestamp = ts.as_second();
-        if ts.subsec_nanosecond() != 0 {
+        if ts.subsec_nanosecond() > 0 {
             timestamp = timestamp.saturating_add(1);
         }
         let search = self.timestamps().binary_search(&timestamp);
@@ -455,7 +455,14 @@ impl<
         ts: Timestamp,
     ) -> Option<TimeZoneTransition> {
         assert!(!self.timestamps().is_empty(), "transitions is non-empty");
-        let timestamp = ts.as_second();
+        // Use the floor of the timestamp so that a transition is reported
+        // if and only if it is strictly after `ts`, including when `ts` has
+        // a negative fractional second.
+        let timestamp = if ts.subsec_nanosecond() < 0 {
+            ts.as_second() - 1
+        } else {
+            ts.as_second()
+        };
         let search = self.timestamps().binary_search(&timestamp);
         let index = match search {
             Ok(i) => i.checked_add(1)?,
